@@ -1,9 +1,9 @@
-\* design level, thorough: lengths 0..3, 5 actions (or Populate + 4)
+\* design level, thorough: 3 hole slots, lengths 0 and 3 (Populate: 0..3), 5 actions (or Populate + 4)
 SPECIFICATION Spec
 CONSTANTS
   MaxHoles = 3
   Names = {"a", "b"}
-  DepthLens = {0, 1, 2, 3}
+  DepthLens = {0, 3}
   Version = 21
   Deviations = {}
   MaxLevel = 5
